@@ -371,8 +371,21 @@ class _Analyzer:
         return FRESH
 
     def apply_func(self, g, e, argvals, kwvals):
-        if g.is_lambda and False:
-            return FRESH
+        # pure forwarders `lambda *args: h(*args, k=v)` / `def g(*args): return h(*args)`: positional actuals keep
+        # their positions (binding every actual to every parameter would blame the raster for writes to a scalar)
+        fw = _forward_target(g)
+        if fw is not None and not any(isinstance(a, ast.Starred) for a in e.args):
+            call = fw
+            h = self.prog.resolve_callable(g, g.module, call.func)
+            hh = h
+            while isinstance(hh, Partial):
+                hh = hh.target
+            if isinstance(hh, Func) and hh is not g:
+                kw2 = dict(kwvals)
+                for k in call.keywords:
+                    if k.arg and k.arg not in kw2:
+                        kw2[k.arg] = FRESH
+                return self.apply(h, e, argvals, kw2, 1)
         sm = self.eff.summary(g)
         bind = {}
         params = list(g.params)
@@ -589,6 +602,21 @@ class _Analyzer:
             for c in ast.iter_child_nodes(s):
                 if isinstance(c, ast.expr):
                     self.val(c)
+
+
+def _forward_target(g):
+    """the call node if g is `lambda *a: h(*a, ...)` or a def whose body is `return h(*a, ...)` with only its vararg"""
+    if g.vararg is None or g.params:
+        return None
+    body = g.node.body if g.is_lambda else None
+    if body is None:
+        stmts = [s for s in g.node.body if not (isinstance(s, ast.Expr) and isinstance(s.value, ast.Constant))]
+        if len(stmts) == 1 and isinstance(stmts[0], ast.Return):
+            body = stmts[0].value
+    if isinstance(body, ast.Call) and len(body.args) == 1 and isinstance(body.args[0], ast.Starred) and \
+            isinstance(body.args[0].value, ast.Name) and body.args[0].value.id == g.vararg:
+        return body
+    return None
 
 
 def _join(a, b):
